@@ -545,3 +545,88 @@ Lemma wit_force_race_edges :
   w_st (c_w wit_force_race) = sCONFIGURED /\ c_hazard wit_force_race = true /\
   forallb th_done (c_threads wit_force_race) = true.
 Proof. vm_compute. repeat split; reflexivity. Qed.
+
+(* ------------------------------------------------------------------------------------------ *)
+(* Statements over requests *)
+Definition req_threads (reqs : list (req * oracle)) : list (prog * oracle) :=
+  map (fun qo => (prog_of (fst qo), snd qo)) reqs.
+
+Lemma req_threads_ok reqs :
+  Forall (fun qo => req_ok (fst qo)) reqs -> Forall (fun po => prog_ok (fst po)) (req_threads reqs).
+Proof.
+  intro H. unfold req_threads. rewrite Forall_map. eapply Forall_impl; [|exact H].
+  intros [q o] Hq. cbn in *. apply prog_of_ok. exact Hq.
+Qed.
+
+Lemma edges_no_done es : forall s0 cur,
+  edges_ok es = true -> chained s0 es cur -> forall e, In e es -> fst e <> sDONE.
+Proof.
+  induction es as [|[a b] r IH]; intros s0 cur He Hc e Hin; [destruct Hin|].
+  unfold edges_ok in He. cbn [forallb] in He. apply andb_true_iff in He. destruct He as [H1 H2].
+  cbn [chained] in Hc. destruct Hc as [Hb [Hab Hr]].
+  destruct Hin as [Hin|Hin].
+  - subst e. cbn [fst]. intro E. subst a. unfold edge_ok in H1. cbn [fst snd] in H1.
+    destruct b; cbn in H1; try discriminate. contradiction Hab. reflexivity.
+  - eapply IH; eassumption.
+Qed.
+
+(* the graph, and DONE being terminal, for every schedule of every set of requests, provided no
+   forced state lands inside somebody's locked section or on a DONE environment *)
+Lemma graph_sched_reqs sched reqs w :
+  Forall (fun qo => req_ok (fst qo)) reqs -> J w ->
+  c_hazard (runs sched (init_c w (req_threads reqs))) = false ->
+  edges_ok (c_edges (runs sched (init_c w (req_threads reqs)))) = true /\
+  chained (w_st w) (c_edges (runs sched (init_c w (req_threads reqs))))
+          (w_st (c_w (runs sched (init_c w (req_threads reqs))))) /\
+  (forall e, In e (c_edges (runs sched (init_c w (req_threads reqs)))) -> fst e <> sDONE) /\
+  J (c_w (runs sched (init_c w (req_threads reqs)))).
+Proof.
+  intros Hr HJ Hh.
+  destruct (graph_sched sched w _ HJ (req_threads_ok reqs Hr) Hh) as [He HJ'].
+  pose proof (edges_chained sched w (req_threads reqs)) as Hc.
+  split; [exact He|]. split; [exact Hc|]. split; [|exact HJ'].
+  eapply edges_no_done; eassumption.
+Qed.
+
+Definition graph_sched_statement : Prop :=
+  forall sched (reqs : list (req * oracle)) w,
+    Forall (fun qo => api_req (fst qo)) reqs -> J w -> w_listed w = true ->
+    edges_ok (c_edges (runs sched (init_c w (req_threads reqs)))) = true.
+
+Definition done_terminal_statement : Prop :=
+  forall sched (reqs : list (req * oracle)) w,
+    Forall (fun qo => api_req (fst qo)) reqs -> J w -> w_listed w = true ->
+    forall e, In e (c_edges (runs sched (init_c w (req_threads reqs)))) -> fst e <> sDONE.
+
+Lemma done_terminal_refuted : ~ done_terminal_statement.
+Proof.
+  intro H.
+  specialize (H wit_stale_sched [(QTeardown true, no_faults); (QControl oSTART_ACTIVITY, no_faults)]
+                (mkWorld sCONFIGURED true)).
+  assert (Ha : Forall (fun qo : req * oracle => api_req (fst qo))
+                      [(QTeardown true, no_faults); (QControl oSTART_ACTIVITY, no_faults)])
+    by (repeat constructor).
+  assert (HJ : J (mkWorld sCONFIGURED true)) by (intro E; discriminate E).
+  specialize (H Ha HJ eq_refl (sDONE, sERROR)).
+  apply H; [|reflexivity]. vm_compute. left. reflexivity.
+Qed.
+
+Lemma graph_sched_refuted : ~ graph_sched_statement.
+Proof.
+  intro H.
+  specialize (H wit_race_sched [(QControl oSTART_ACTIVITY, wit_race_oracle); (QControl oCONFIGURE, wit_race_oracle)]
+                (mkWorld sDEPLOYED true)).
+  assert (Ha : Forall (fun qo : req * oracle => api_req (fst qo))
+                      [(QControl oSTART_ACTIVITY, wit_race_oracle); (QControl oCONFIGURE, wit_race_oracle)])
+    by (repeat constructor).
+  assert (HJ : J (mkWorld sDEPLOYED true)) by (intro E; discriminate E).
+  specialize (H Ha HJ eq_refl). vm_compute in H. discriminate H.
+Qed.
+
+(* the refinement, stated over requests: the world reached and every thread's remaining program
+   (for finished threads: result code and reported state) are those of an atomic execution *)
+Lemma serial_refinement_reqs sched reqs w :
+  c_hazard (runs sched (init_c w (req_threads reqs))) = false ->
+  exists order, subseq order sched /\
+    abs (runs sched (init_c w (req_threads reqs))) = run_atomic order (w, req_threads reqs).
+Proof. apply serial_refinement. Qed.
